@@ -1,0 +1,19 @@
+//go:build verif
+// +build verif
+
+package listener
+
+import "net"
+
+// VerifNew creates a multiplexing Listener on top of an existing net.Listener
+// (verification harness only: lets a test feed in-memory connections).
+func VerifNew(l net.Listener) *Listener {
+	return &Listener{
+		root:            l,
+		bufferSize:      1024,
+		errorHandler:    func(_ error) bool { return true },
+		closing:         make(chan struct{}),
+		readTimeout:     noTimeout,
+		settingsHandler: func(_ net.Conn) {},
+	}
+}
